@@ -264,6 +264,7 @@ func (u *Unit) callbackHavoc(env *Env) {
 	nc := u.D.Fresh("clk", SInt)
 	env.assume(le(env.clock, nc))
 	env.clock = nc
+	u.assumeClosedHeaps(env)
 	u.heapsHavocked = true
 }
 
